@@ -193,11 +193,11 @@ func (r *gatewayController) buildCanaryHeaderHttpRoutes(rules []gatewayv1beta1.H
 			canaryRuleMatch := &canaryRule.Matches[j]
 			for k := range nonPathMatches {
 				canaryRuleMatchBase := *canaryRuleMatch
-				if len(matches[k].Headers) > 0 {
-					canaryRuleMatchBase.Headers = append(canaryRuleMatchBase.Headers, matches[k].Headers...)
+				if len(nonPathMatches[k].Headers) > 0 {
+					canaryRuleMatchBase.Headers = append(canaryRuleMatchBase.Headers, nonPathMatches[k].Headers...)
 				}
-				if len(matches[k].QueryParams) > 0 {
-					canaryRuleMatchBase.QueryParams = append(canaryRuleMatchBase.QueryParams, matches[k].QueryParams...)
+				if len(nonPathMatches[k].QueryParams) > 0 {
+					canaryRuleMatchBase.QueryParams = append(canaryRuleMatchBase.QueryParams, nonPathMatches[k].QueryParams...)
 				}
 				newMatches = append(newMatches, canaryRuleMatchBase)
 			}
